@@ -944,6 +944,30 @@ Section Store.
         end
     end.
 
+  (* additionalAnswer's self-alias test (since fix a4faf69 an ASCII-case-insensitive comparison,
+     strings.EqualFold on decoder-printed names): an alias of the chain — the hit entry's own, or that of a
+     hop the sub-queries returned — whose target is the client's question name in any spelling makes the
+     whole reply SERVFAIL; nothing that was collected is served *)
+  Fixpoint msg_chase_selfloop (s : store) (fuel : nat) (qname : bytes) (qtype qclass : N) (cd : bool) (e : entry) : bool :=
+    match fuel with
+    | O => false
+    | S f =>
+        if e_has_qtype e then false else
+        match e_alias e with
+        | None => false
+        | Some tw =>
+            match option_map present (parse_wire tw) with
+            | None => false
+            | Some tn =>
+                if bytes_eqb (fold tn) (fold qname) then true else
+                match store_lookup s (mk_q tn qtype qclass) cd with
+                | Some nxt => msg_chase_selfloop s f qname qtype qclass cd nxt
+                | None => false
+                end
+            end
+        end
+    end.
+
   (* ---- what a client of the edns+cache pipeline observes *)
   Inductive outcome := OMiss | OHit (id : N) | OCut (id : N) | OFail (id : N).
 
